@@ -228,7 +228,7 @@ def o56(ctx):
                 what="flip_handedness without dimensions")
 
 
-def obligations():
+def _obligations():
     return [
         Obligation("O5.1", "get_coordinates = (x,y,z) + (shift_x,shift_y,shift_z) in both branches", o51, floor=9),
         Obligation("O5.2", "update_coordinates: x' = round-half-up(x+shift), shift' = residual, x'+shift' invariant", o52, floor=9),
@@ -237,3 +237,7 @@ def obligations():
         Obligation("O5.5", "apply_rotation: new orientation = R*Q, nothing else changes", o55, floor=2),
         Obligation("O5.6", "flip_handedness: orientation S_z R S_z, z -> dim+1-z, shift_z -> -shift_z, per tomogram", o56, floor=10),
     ]
+
+
+def obligations():
+    return _obligations() + [effects_obligation("C05")]
